@@ -16,8 +16,9 @@
 //	c07.cmap <programHex> <codesHex>    -> scalars of ParseToUnicodeCMap(program).LookupString(codes)
 //	c07.cmapw <programHex> <w> <codes>  -> scalars of lookupStringWithWidth
 //	c07.lookup <programHex> <code>      -> scalars of Lookup(code)
-//	c07.font <programHex|~> <encNameHex> <dataHex> <nfc table pre>post;..|~>
+//	c07.font <programHex|~> <encNameHex> <differences code>rune;..|~> <dataHex> <nfc table pre>post;..|~>
 //	                                    -> scalars of (*Font).DecodeString(data)
+//	c07.glyph <glyphNameHex>            -> rune (hex) the package's glyph list gives the name | -
 //	c07.nofont <dataHex>                -> scalars of the fragment text of `<data> Tj` with no font
 //	c07.render <flags/wrap> <form> <w> <runs> -> hex of the program the independent writer renders
 //	c07.entries <form> <runs>           -> the code:text entries the program specifies
@@ -43,7 +44,8 @@ func Run(c *hx.Ctx) {
 	c.Rep.Rule = "exhaustive: 256 codes x 6 named encodings (+ unknown names) against independent reference tables and x/text charmaps; " +
 		"generated: code->text maps (1-300 entries, code width 1-4, targets ASCII/BMP/ligature/multi-char/combining/astral) rendered by an " +
 		"independent CMap writer under every formatting policy (bfchar lines / one line / bfrange offset / bfrange array / arrays spanning lines; LF, CRLF), " +
-		"mutated (malformed) programs, scalar strings through UTF-16BE/LE (all scalars swept), byte strings through (*Font).DecodeString and text.Extractor, one-page PDFs (TrueType font with /Encoding and /ToUnicode) through tabula.Open(f).Fragments(), " +
+		"mutated (malformed) programs, scalar strings through UTF-16BE/LE (all scalars swept), byte strings through (*Font).DecodeString and text.Extractor, " +
+		"every name of an independent excerpt of the Adobe Glyph List (and names outside the list) through the package's glyph list, fonts with a Differences map (characters of the glyph list, arbitrary scalars, combining marks, rune 0 and invalid runes; with and without a ToUnicode CMap beside it) through DecodeString, font dictionaries whose /Encoding dictionary has /Differences (1-4 runs of Adobe Glyph List names and of names outside the list, runs naming a code again, with or without /BaseEncoding, Type1 and TrueType) in the documents below, one-page PDFs (TrueType font with /Encoding and /ToUnicode) through tabula.Open(f).Fragments(), " +
 		"one-page PDFs with 2-4 font dictionaries (TrueType/Type1/Type0; sharing one BaseFont or not; each with its own ToUnicode and/or /Encoding, the same codes mapped differently; " +
 		"bound in the page and in Form XObjects it draws, under unique names or names every scope starts again) where every shown string must decode by the dictionary its Tf selects. " +
 		"documents for text.Extractor given as object tables (1-4 font dictionaries, page + 0-3 Form XObjects each with its own resources, shows by Tj/TJ/'/\" under q/Q and Do): half well formed (every Tf names a font of its own scope: the specified texts are demanded), half with what the property does not speak about (odd /Subtype, /Encoding dictionaries or wrong types, ToUnicode that is no stream, bad /Widths, unbound or missing Tf, stray Q, forms without /Resources or drawing themselves, unparsable content). " +
@@ -54,6 +56,7 @@ func Run(c *hx.Ctx) {
 	runCMaps(c)
 	runMalformed(c)
 	runFonts(c)
+	runDifferences(c)
 	runPDF(c)
 	runMultiFont(c)
 	runExtract(c)
@@ -147,6 +150,8 @@ func Replay(c *hx.Ctx, k map[string]interface{}) {
 		replayFont(c, k)
 	case "nofont":
 		noFontCase(c, unhex(k["data"]), false)
+	case "glyph":
+		replayGlyph(c, k)
 	case "pdf":
 		replayPDF(c, k)
 	case "multifont":
